@@ -487,8 +487,10 @@ pub fn escaped_ascii_from_bytes(bytes: &Vec<u8>,escape_cc: bool,inverted: bool) 
         (true,true) => (0xa0,0xfe),
         (false,true) => (0x80,0xff)
     };
+    // the backslash introduces an escape, so a literal one has to be escaped itself
+    let backslash = match inverted { true => 0xdc, false => 0x5c };
     for i in 0..bytes.len() {
-        if bytes[i]>=lb && bytes[i]<=ub {
+        if bytes[i]>=lb && bytes[i]<=ub && bytes[i]!=backslash {
             if inverted {
                 result += std::str::from_utf8(&[bytes[i]-0x80]).expect("unreachable");
             } else {
